@@ -109,7 +109,11 @@ func (m *Machine) processExit(why string) {
 	if m.exitOK {
 		panic(pathAbort{"done", "exit: " + why})
 	}
-	m.recordViolationWithModel("exit", "exit: process terminated via "+why, m.where())
+	label := "exit: process terminated via " + why
+	if m.lastRecovered != "" {
+		label += " after panic: " + m.lastRecovered
+	}
+	m.recordViolationWithModel("exit", label, m.where())
 	panic(pathAbort{"done", "exit via " + why})
 }
 
@@ -117,10 +121,10 @@ func ret(v value) (value, bool) { return v, true }
 
 // side tables for sync primitives and timers
 type syncState struct {
-	locked  map[*value]int // mutex: 0 free, >0 write-locked, <0 readers
-	wg      map[*value]int64
-	once    map[*value]bool
-	timers  []*timerRec
+	locked map[*value]int // mutex: 0 free, >0 write-locked, <0 readers
+	wg     map[*value]int64
+	once   map[*value]bool
+	timers []*timerRec
 }
 
 type timerRec struct {
@@ -469,6 +473,10 @@ func init() {
 		}
 		return uint64(n), true
 	}
+	harnessAPI["zzTag"] = func(m *Machine, fr *frame, fn *ssa.Function, args []value) (value, bool) {
+		m.tag = args[0].(string)
+		return nil, true
+	}
 	harnessAPI["zzTier"] = func(m *Machine, fr *frame, fn *ssa.Function, args []value) (value, bool) {
 		return uint64(m.P.Tier), true
 	}
@@ -781,10 +789,24 @@ func init() {
 	})
 	reg("(net.IP).String", func(m *Machine, fr *frame, fn *ssa.Function, args []value) (value, bool) {
 		ip, ok := m.ipFromValue(args[0])
-		if !ok {
-			m.unsupported("(net.IP).String on symbolic address")
+		if ok {
+			return ip.String(), true
 		}
-		return ip.String(), true
+		// symbolic IPv4 address: an injective tuple string (dotted quad is injective in the 4 octets)
+		cells := args[0].([]value)
+		if len(cells) == 16 {
+			pre := []byte{0, 0, 0, 0, 0, 0, 0, 0, 0, 0, 0xff, 0xff}
+			for i, b := range pre {
+				if c, isC := cells[i].(uint64); !isC || byte(c) != b {
+					m.unsupported("(net.IP).String on symbolic IPv6 address")
+				}
+			}
+			cells = cells[12:]
+		}
+		if len(cells) != 4 {
+			m.unsupported("(net.IP).String on symbolic address of length %d", len(cells))
+		}
+		return &tstr{format: "ip4", args: []value{cells[0], cells[1], cells[2], cells[3]}}, true
 	})
 	mkUDPAddr := func(m *Machine, a *net.UDPAddr) value {
 		cell := new(value)
@@ -872,6 +894,15 @@ func init() {
 		reg(n, func(m *Machine, fr *frame, fn *ssa.Function, args []value) (value, bool) { return nil, true })
 	}
 	reg("net.ParseIP", func(m *Machine, fr *frame, fn *ssa.Function, args []value) (value, bool) {
+		if t, ok := args[0].(*tstr); ok && t.format == "ip4" {
+			out := make([]value, 16)
+			for i := 0; i < 10; i++ {
+				out[i] = uint64(0)
+			}
+			out[10], out[11] = uint64(0xff), uint64(0xff)
+			copy(out[12:], t.args)
+			return out, true
+		}
 		s, ok := args[0].(string)
 		if !ok {
 			return nil, false // fall through to model / body
